@@ -125,7 +125,19 @@ def pDiffInt : P String := do
   let probe ← P.list P.nat; let base ← P.list P.nat
   pure (showRats (diffPromoted bits opt base probe))
 
+def pDKind : P DKind := do
+  let t ← P.tok
+  match t with | "u" => pure .u | "i" => pure .i | "b" => pure .b | "f" => pure .f | _ => failure
+
+/-- `diffdt <opt> <kb> <bitsb> <kp> <bitsp> <n> probe... <n> base...` → differences of the promoted values, exact -/
+def pDiffDt : P String := do
+  let opt ← pOpt
+  let kb ← pDKind; let bb ← P.nat; let kp ← pDKind; let bp ← P.nat
+  let probe ← P.list P.rat; let base ← P.list P.rat
+  pure (showRats (diffDList opt kb bb kp bp base probe))
+
 def dispatch : List String → Option String
+  | "diffdt" :: rest => (pDiffDt.run rest).map (·.1)
   | "diffint" :: rest => (pDiffInt.run rest).map (·.1)
   | "call" :: rest => (pCall.run rest).map (·.1)
   | _ => none
